@@ -200,7 +200,8 @@ def generate(seed: int, tier: str = "quick") -> Dict[str, Any]:
     if faulty and rng.random() < 0.6:
         ops.append({"op": "alloc", "s": s(), "p_reuse": rng.choice([0.3, 0.6, 1.0, 1.0]),
                     "pick": rng.choice(["lifo", "fifo", "rand"]), "gc_p": rng.choice([0.05, 0.3, 0.6])})
-    for _ in range(rng.randint(4, 24)):
+    deep = tier == "thorough" and rng.random() < 0.4
+    for _ in range(rng.randint(20, 60) if deep else rng.randint(4, 24)):
         c = rng.random()
         if faulty and c < 0.08:
             ops.append({"op": "gc", "s": s()})
